@@ -16,6 +16,7 @@ CONSTANTS
   NilPacketSock = FALSE
   CloseWaits = FALSE
   ErrAware = TRUE
+  RecheckAfterRecv = FALSE
   AcceptErrors = 0
 INVARIANTS DumpInv
 CHECK_DEADLOCK FALSE
